@@ -2,6 +2,9 @@
 // no muscle dependency).  Written from the doc comment of StringMatcher::SetPattern() and the property statement C15:
 //    *  any run of characters (incl. none)      ?  any one character (= one byte: muscle never sets a locale)
 //    [abc] [a-f] [a-c1-3_]  a character class    (x|yz|)  a group of alternatives      a,b,c  top-level alternatives
+//       (between [ and ] every character is just a member: [?*,.+|(){}$] are those eleven characters; a ] directly after
+//        [ or [^ is a member, a - in first or last position is a member, [^..] is the complement -- bash globbing and
+//        POSIX brackets agree on all of these; [!..], a backslash or a [ inside a class do not agree and are refused)
 //    a leading ~ negates the whole pattern       a whole-pattern <a-b,c-,-d,e> list of inclusive numeric ranges
 //    \x makes x literal                          the WHOLE subject must match
 // Used by h_wildcard (C15) and by the reflector harnesses (C04/C05) for subscription / routing paths.
@@ -12,7 +15,7 @@
 //    before < ~ ` only in first position (at the very start, or directly after the negating ~); Node::esc forces a
 //    backslash before any other literal ("over-escaped" patterns).
 //  * Parse() reads the SUBSET of pattern text that is documented (and that the harnesses generate): everything outside it
-//    (unescaped ^ $ { } | ) ] outside a construct, [!..] / [^..] classes, a backslash inside a class, an unescaped comma
+//    (unescaped ^ $ { } | ) ] outside a construct, [!..] classes, a backslash or a '[' inside a class, an unescaped comma
 //    inside a group, backtick-regex patterns, a trailing backslash, "~" alone, <..> that is not a well-formed range list)
 //    is refused with a reason: those texts pass through to POSIX regex and are documented nowhere.
 //  * Match(text, subject) = Parse + Match; a refused text is a precondition failure of the calling harness
@@ -42,9 +45,10 @@ struct Node {
    Kind k;
    unsigned char c;               // LIT
    bool esc;                      // LIT: print a backslash even where the syntax does not need one
-   std::vector<ClassItem> cls;    // CLASS: members and ranges, printed in this order
+   std::vector<ClassItem> cls;    // CLASS: members and ranges, printed in this order (the builder keeps ']' first, '-' first or last, '^' not first)
+   bool neg;                      // CLASS: [^...], any one character that is NOT a member
    std::vector<Seq> alts;         // GROUP: one or more alternatives, each possibly empty
-   Node() : k(LIT), c('a'), esc(false) {}
+   Node() : k(LIT), c('a'), esc(false), neg(false) {}
    static Node Lit(unsigned char ch, bool e = false) { Node n; n.k = LIT; n.c = ch; n.esc = e; return n; }
    static Node Star() { Node n; n.k = STAR; return n; }
    static Node Any1() { Node n; n.k = ANY1; return n; }
@@ -74,7 +78,7 @@ static inline void PrintSeq(const Seq & s, std::string & o, size_t firstPos)
       case Node::STAR: o.push_back('*'); break;
       case Node::ANY1: o.push_back('?'); break;
       case Node::CLASS:
-         o.push_back('[');
+         o.push_back('['); if (x.neg) o.push_back('^');
          for (size_t j = 0; j < x.cls.size(); j++) { o.push_back((char)x.cls[j].lo); if (x.cls[j].hi != x.cls[j].lo) { o.push_back('-'); o.push_back((char)x.cls[j].hi); } }
          o.push_back(']');
          break;
@@ -110,7 +114,7 @@ static inline std::string Print(const Pattern & p)
 struct Cont { const Seq * s; size_t i; const Cont * up; };
 struct MatchState { const std::string * t; std::set<std::pair<const Node *, size_t> > deadStars; unsigned long steps; MatchState() : t(NULL), steps(0) {} };
 
-static inline bool InClass(const Node & x, unsigned char c) { for (size_t j = 0; j < x.cls.size(); j++) if (c >= x.cls[j].lo && c <= x.cls[j].hi) return true; return false; }
+static inline bool InClass(const Node & x, unsigned char c) { for (size_t j = 0; j < x.cls.size(); j++) if (c >= x.cls[j].lo && c <= x.cls[j].hi) return !x.neg; return x.neg; }
 
 // does s[i..] followed by the continuation k match t[p..] up to the very end of t?
 // (the AST is a tree: a Seq has exactly one continuation, so "star x cannot succeed from p" can be remembered)
@@ -183,12 +187,13 @@ struct Parser {
    bool ParseClass(Node & n)
    {
       n.k = Node::CLASS; pos++;   // '['
-      if (pos < t.size() && (t[pos] == '!' || t[pos] == '^')) return Fail("negated class is not documented");
+      if (pos < t.size() && t[pos] == '!') return Fail("[!..]: complement in globbing, a member '!' in POSIX brackets");
+      if (pos < t.size() && t[pos] == '^') { n.neg = true; pos++; }
       bool any = false;
       while (true) {
          if (pos >= t.size()) return Fail("unterminated class");
          unsigned char c = (unsigned char)t[pos];
-         if (c == ']') { if (!any) return Fail("empty class / ']' as first member"); pos++; return true; }
+         if (c == ']' && any) { pos++; return true; }        // a ']' directly after '[' or '[^' is a member
          if (c == '\\') return Fail("backslash inside a class is not documented");
          if (c == '[') return Fail("'[' inside a class (POSIX [:class:] forms) is not documented");
          if (pos + 2 < t.size() && t[pos + 1] == '-' && t[pos + 2] != ']') {
@@ -311,7 +316,15 @@ template<class RNG> static inline void SampleSeq(const Seq & s, std::string & o,
       case Node::LIT: o.push_back((char)x.c); break;
       case Node::STAR: { uint32_t n = g.R(maxStar + 1); for (uint32_t j = 0; j < n; j++) o.push_back(alphabet[g.R((uint32_t)alphabet.size())]); } break;
       case Node::ANY1: o.push_back(alphabet[g.R((uint32_t)alphabet.size())]); break;
-      case Node::CLASS: { const ClassItem & it = x.cls[g.R((uint32_t)x.cls.size())]; o.push_back((char)(it.lo + g.R((uint32_t)(it.hi - it.lo) + 1))); } break;
+      case Node::CLASS:
+         if (x.neg) {   // some character that is not a member: from the alphabet if it has one, else any byte 1..255
+            unsigned char pick = 0; const uint32_t off = g.R((uint32_t)alphabet.size());
+            for (size_t j = 0; j < alphabet.size() && !pick; j++) { const unsigned char c = (unsigned char)alphabet[(off + j) % alphabet.size()]; if (InClass(x, c)) pick = c; }
+            for (unsigned b = 1; b < 256 && !pick; b++) if (InClass(x, (unsigned char)b)) pick = (unsigned char)b;
+            if (pick) o.push_back((char)pick);   // (a complement of everything has no sample: the subject then simply does not match)
+         }
+         else { const ClassItem & it = x.cls[g.R((uint32_t)x.cls.size())]; o.push_back((char)(it.lo + g.R((uint32_t)(it.hi - it.lo) + 1))); }
+         break;
       case Node::GROUP: SampleSeq(x.alts[g.R((uint32_t)x.alts.size())], o, g, alphabet, maxStar); break;
       }
    }
